@@ -1,7 +1,7 @@
 PROP = {
     "id": "C22",
     "theorem_modules": ["Verif.Properties.C22"],
-    "min_theorems": 14,
+    "min_theorems": 24,
     "required_theorems": [
         "Verif.Properties.C22.save_occupied_fails",
         "Verif.Properties.C22.load_semantics",
@@ -14,6 +14,8 @@ PROP = {
         "Verif.Properties.C22.abort_erasable",
         "Verif.Properties.C22.commit_persists",
         "Verif.Properties.C22.subtype_trans",
+        "Verif.Properties.C22.subtype_optional_rules",
+        "Verif.Properties.C22.optional_resource_not_anystruct",
     ],
     "streams": [
         {"name": "store", "driver": "drv_store",
@@ -30,15 +32,22 @@ PROP = {
                   "paths once each in every reachable store; an aborted transaction is a no-op and can be erased from any "
                   "history; commit persists (runHist (h1++h2) = run h2 from the state h1 committed; a commit boundary is "
                   "unobservable).  Tied to /repo by the `store` correspondence stream: generated histories over 3 accounts x "
-                  "6 paths (9 value kinds, 14 type arguments: super-, sub- and unrelated types; aborts by overwrite, type "
-                  "mismatch and panic) are executed as Cadence transactions on the real runtime with a ledger that persists "
+                  "6 paths (16 value kinds: 9 non-optional, some(v) of Int / S / S2 / @R / @R2, some(some(Int)), nil; 21 "
+                  "type arguments: the 14 non-optional ones, Int? S? AnyStruct? Int?? @R? @{RI}? @AnyResource?; super-, "
+                  "sub- and unrelated types; aborts by overwrite, type mismatch and panic) are executed as Cadence transactions on the real runtime with a ledger that persists "
                   "between transactions, in the interpreter and in the VM, and every log line and outcome class is compared "
-                  "with the machine; the value-kind x type-argument table is covered exhaustively.",
+                  "with the machine; the value-kind x type-argument table (16 x 21 through check/type/copy/load, 16 x 14 through borrow: the "
+                  "checker rejects references to optional types) is covered exhaustively in every run.",
     "level_note": "proof (spec machine) + CC: the theorems are about the machine, which is the specification; that the Go "
                   "implementation (interpreter.AccountStorage*, domain storage maps, Storage.Commit, atree) refines it is "
-                  "shown only by refinement testing on the generated histories. The subtype relation is a 14-type table "
-                  "(validated exhaustively against the runtime by the stream), not sema's full checker.",
-    "assumptions": ["type universe: Int String Bool Integer [Int] [AnyStruct] S S2:{I} {I} AnyStruct R R2:{RI} {RI} AnyResource",
+                  "shown only by refinement testing on the generated histories. The subtype relation is a 15-base-type table x optional depth "
+                  "(validated exhaustively against the runtime by the stream for depths 0-2), not sema's full checker. "
+                  "Known finding borrow-stored-nil-as-anyresource: on a stored nil, borrow<&AnyResource> (sema.IsSubType) "
+                  "fails while check/load<@AnyResource> (IsSubTypeOfSemaType) accept.",
+    "assumptions": ["type universe: Int String Bool Integer [Int] [AnyStruct] S S2:{I} {I} AnyStruct R R2:{RI} {RI} AnyResource, "
+                    "each under any number of optional layers, and Never? (nil)",
+                    "a loaded / copied value is observed by its log rendering, which does not show optional layers; the stored "
+                    "dynamic type is observed by type(at:) and forEachStored",
                     "borrow is observed through one read of the borrowed reference immediately after the borrow"],
     "trusted_base": ["spec machine Verif.Model.Store (is the spec)", "Go harness cmd/vharness/stream_store.go (Cadence "
                      "generation from a typed template, log canonicalisation: location prefix stripped, path lists sorted)",
